@@ -38,7 +38,7 @@ ASSUMPTIONS = [
     "typed comparisons against stored values that are not cleanly of that type are 'unknown' (three-valued): must ⊆ result ⊆ must ∪ unknown",
     "not judged: letter case of f= globs and [[page]] names (all generated lower-case), result order",
 ]
-REQUIRED_COUNTERS = ["enter.to_sql_select", "enter.link_filters", "enter.desc_filters", "enter.property_filters", "enter.file_filters", "enter.date_ranges", "enter.or_filters"]
+REQUIRED_COUNTERS = ["enter.to_sql_select", "enter.link_filters", "enter.desc_filters", "enter.property_filters", "enter.file_filters", "enter.date_ranges", "enter.or_filters", "cli.query_runs"]
 MIN_JUDGED = {"quick": 1500, "thorough": 30000}
 MAX_INVALID_FRAC = 0.12
 
@@ -196,6 +196,15 @@ def run_index(acc: Acc, seed: int, idx: int, nq: int, only=None) -> None:
                         continue
                     if got2 != got:
                         acc.violation(f"[q{qi}] 'W {text}': compiled-from-text filter returns {len(got2)} notes, structure route {len(got)}", {"seed": seed, "idx": idx, "label": f"q{qi}", "text": text}, cls="text route and structure route disagree")
+                if got is not None and qi % 12 == 5:
+                    # the user-level route: `zorg query 'S note W … G none'` must print exactly those notes
+                    from zmon.gen import history as hg
+
+                    rq = db.cli(root, "query", f"S note W {text} G none")
+                    acc.count("cli.query_runs")
+                    zs = {hg.first_line_parts(l)[2] for l in rq.out.split("\n") if hg.ITEM_START.match(l)}
+                    if rq.rc != 0 or zs != set(got):
+                        acc.violation(f"[q{qi}] `zorg query 'S note W {text} G none'` rc={rq.rc} prints {len(zs)} notes, the filter selects {len(got)}: only CLI {sorted(zs - set(got))[:3]} only filter {sorted(set(got) - zs)[:3]} {rq.err[-200:]}", {"seed": seed, "idx": idx, "label": f"q{qi}", "text": text}, cls="CLI query prints other notes than the filter selects")
                 if len(acc.samples) < 2 and got:
                     acc.sample({"filter": "W " + text, "universe": len(all_z), "returned": sorted(got)[:5], "n_returned": len(got)})
             # single-atom filters with their negation: reference + model-free complement law
